@@ -1,51 +1,38 @@
 /-
-C04 — the protocol invariant, part 10: the link between the ghost state and the table's control state, its
-preservation by every history operation, and reachability for whole histories.
+C04 — the protocol invariant, part 10: what an operation of a history establishes (`OpOK`), publishing a
+snapshot (`persist` + `gc.clean`) with its batch accounting, and the `batch` operation.
 -/
-import Banyan.Lemmas.C04Inv9
+import Banyan.Lemmas.C04Acc2
 
 namespace Banyan.C04
 open Banyan.FS
 
-/-- how the ghost relates to the table's control state between operations -/
-structure Link (G : Ghost) (tb : Tbl) : Prop where
-  partBound : ∀ ps ∈ G.parts, ps.id ≤ tb.curPartID
-  idsBound : ∀ p ∈ tb.parts, p.id ≤ tb.curPartID
-  idsNodup : (tb.parts.map (·.id)).Nodup
-  memFresh : ∀ p ∈ tb.parts, p.mem = true → p.id ∉ G.parts.map (·.id)
-  fileKnown : ∀ p ∈ tb.parts, p.mem = false → ∃ ps ∈ G.parts, ps.id = p.id ∧ ps.dying = false
-  zombKnown : ∀ id ∈ tb.zombies, (∃ ps ∈ G.parts, ps.id = id ∧ ps.dying = false) ∧ id ∉ tb.parts.map (·.id)
-  dyingGone : ∀ ps ∈ G.parts, ps.dying = true → ps.id ∉ tb.parts.map (·.id) ∧ ps.id ∉ tb.zombies
-  epochBound : ∀ ms ∈ G.mans, ms.epoch ≤ tb.epoch
-  floorLink : (tb.liveEpoch = 0 ∧ G.floor = none) ∨ (0 < tb.liveEpoch ∧ G.floor = some tb.liveEpoch)
-  liveBound : tb.liveEpoch ≤ tb.epoch
-  deletableNil : tb.deletable = []
-  aboveIds : ∀ ms ∈ G.mans, G.aboveFloor ms.epoch → ∀ id ∈ ms.ids, id ∈ tb.parts.map (·.id)
-
-theorem link_init (e : Nat) : Link {} ({ epoch := e } : Tbl) := by
-  refine ⟨?_, ?_, by simp, ?_, ?_, ?_, ?_, ?_, Or.inl ⟨rfl, rfl⟩, Nat.zero_le _, rfl, ?_⟩ <;>
-    intros <;> simp_all
-
-/-- what holds after an operation, starting from linked `G`, `tb`, `s` -/
+/-- What holds for an operation `o` started from `s`, `tb`:
+    * at every prefix of its system calls the invariant holds for a ghost whose accounting covers the file
+      parts of `tb`;
+    * from the end of the manifest publication (`opPre`) on, the accounting covers the file parts of the new
+      table state;
+    * at the end the ghost is linked to the new table state. -/
 def OpOK (tb : Tbl) (o : Op) (s : St) : Prop :=
-  Along (fun s => ∃ G', Inv G' s) s (opSteps tb o).1 ∧
+  Along (InvQ (AccAt tb.acked (fileBatches tb).length)) s (opSteps tb o).1 ∧
+  Along (InvQ (AccAt tb.acked (fileBatches (opSteps tb o).2).length)) (run s (opPre tb o)) (opPost tb o) ∧
+  (fileBatches tb).length ≤ (fileBatches (opSteps tb o).2).length ∧
   ∃ G', Inv G' (run s (opSteps tb o).1) ∧ Link G' (opSteps tb o).2
 
-theorem aboveFloor_of_floorLink {G : Ghost} {tb : Tbl} (hL : Link G tb) (e : Nat) (he : tb.epoch < e) :
-    G.aboveFloor e := by
-  intro e0 hf
-  rcases hL.floorLink with ⟨_, hn⟩ | ⟨_, hs⟩
-  · rw [hn] at hf; cases hf
-  · rw [hs] at hf; cases hf
-    have := hL.liveBound; omega
-
 /-- publishing the snapshot `t1` (whose epoch is new) from a ghost whose parts cover `t1`'s file parts -/
-theorem publish_ok {G : Ghost} {s : St} {t1 : Tbl} (h : Inv G s)
+theorem publish_ok {G : Ghost} {s : St} {t1 : Tbl} {A : List Nat} {n n1 : Nat} (h : Inv G s)
+    (hacc : AccAt A n G) (hle : n ≤ n1)
     (hfresh : ∀ ms ∈ G.mans, ms.epoch < t1.epoch)
     (hfloor : (t1.liveEpoch = 0 ∧ G.floor = none) ∨ (0 < t1.liveEpoch ∧ G.floor = some t1.liveEpoch))
     (hlive : t1.liveEpoch < t1.epoch) (hdel : t1.deletable = [])
-    (halive : ∀ id ∈ t1.ids, ∀ ps ∈ G.parts, ps.id = id → ps.dying = false) :
-    Along (fun s => ∃ G', Inv G' s) s (publish t1).1 ∧
+    (halive : ∀ id ∈ t1.ids, ∀ ps ∈ G.parts, ps.id = id → ps.dying = false)
+    (hnd1 : (t1.parts.map (·.id)).Nodup)
+    (hmemFresh1 : ∀ p ∈ t1.parts, p.mem = true → p.id ∉ G.parts.map (·.id))
+    (hknown1 : ∀ p ∈ t1.parts, p.mem = false →
+      ∃ ps ∈ G.parts, ps.id = p.id ∧ ps.bat = p.batches ∧ ps.durable = true ∧ ps.dying = false)
+    (hfile1 : (fileBatches t1).Perm (A.take n1)) (hn1 : n1 ≤ A.length) :
+    Along (InvQ (AccAt A n)) s (publishPre t1) ∧
+    Along (InvQ (AccAt A n1)) (run s (publishPre t1)) (publishPost t1) ∧
     Inv (G.withMan ⟨t1.epoch, t1.ids, s.next, false⟩) (run s (publish t1).1) := by
   have hfr : t1.epoch ∉ G.mans.map (·.epoch) := by
     intro hmem
@@ -56,27 +43,35 @@ theorem publish_ok {G : Ghost} {s : St} {t1 : Tbl} (h : Inv G s)
     rcases hfloor with ⟨_, hn⟩ | ⟨_, hs⟩
     · rw [hn] at hf; cases hf
     · rw [hs] at hf; cases hf; omega
-  obtain ⟨hA, hE⟩ := persist_along h t1.epoch t1.ids hfr hab halive
+  have hpa : ∀ ms : ManS, ms.epoch = t1.epoch → ms.ids = t1.ids →
+      AccAt A n { G with mans := G.mans ++ [ms] } ∧
+      AccAt A n (({ G with mans := G.mans ++ [ms] } : Ghost).manReady ms.epoch) ∧ AccAt A n1 (G.withMan ms) :=
+    fun ms he hids => persist_acc h.gwf.partIds h.gwf.manEpochs hacc hle hnd1 hmemFresh1 hknown1 hfile1 hn1 hfresh
+      ms he hids
+  obtain ⟨hA, hE⟩ := persist_along h t1.epoch t1.ids hfr hab halive (AccAt A n)
+    (fun ms he hids _ => ⟨(hpa ms he hids).1, (hpa ms he hids).2.1, accAt_mono hle (hpa ms he hids).2.2⟩)
+  have hq2 : AccAt A n1 (G.withMan ⟨t1.epoch, t1.ids, s.next, false⟩) := (hpa _ rfl rfl).2.2
   have hfl : (G.withMan ⟨t1.epoch, t1.ids, s.next, false⟩).floor = some t1.epoch := rfl
-  have hsteps : (publish t1).1 = persist t1.epoch t1.ids ++
-      cleanSteps (if t1.liveEpoch > 0 then [t1.liveEpoch] else []) := by
-    simp [publish, hdel]
-  rw [hsteps]
+  have hpost : publishPost t1 = cleanSteps (if t1.liveEpoch > 0 then [t1.liveEpoch] else []) := by
+    simp [publishPost, hdel]
   obtain ⟨hA2, hE2⟩ := clean_along (G := G.withMan ⟨t1.epoch, t1.ids, s.next, false⟩) t1.epoch hfl
     (if t1.liveEpoch > 0 then [t1.liveEpoch] else []) _ hE
     (by intro d hd; by_cases hp : t1.liveEpoch > 0 <;> simp [hp] at hd; omega)
-  exact ⟨along_append hA (along_mono (fun _ hh => ⟨_, hh⟩) hA2), by rw [run_append]; exact hE2⟩
+  refine ⟨hA, ?_, ?_⟩
+  · rw [hpost]; exact along_mono (fun _ hh => ⟨_, hh, hq2⟩) hA2
+  · rw [publish_steps, run_append, hpost]; exact hE2
 
 /-- the link after publishing: every part of the snapshot is a known, living file part -/
 theorem link_after_publish {G : Ghost} {t1 : Tbl} {ino : Nat}
-    (hgw : (G.mans.map (·.epoch)).Nodup)
     (hpb : ∀ ps ∈ G.parts, ps.id ≤ t1.curPartID) (hib : ∀ p ∈ t1.parts, p.id ≤ t1.curPartID)
     (hnd : (t1.parts.map (·.id)).Nodup)
     (hmemFresh : ∀ p ∈ t1.parts, p.mem = true → p.id ∉ G.parts.map (·.id))
     (hknown : ∀ p ∈ t1.parts, p.mem = false → ∃ ps ∈ G.parts, ps.id = p.id ∧ ps.dying = false)
+    (hfull : ∀ p ∈ t1.parts, p.mem = false → ∀ ps ∈ G.parts, ps.id = p.id →
+      ps.ready = true ∧ ps.durable = true ∧ ps.bat = p.batches)
     (hz : ∀ id ∈ t1.zombies, (∃ ps ∈ G.parts, ps.id = id ∧ ps.dying = false) ∧ id ∉ t1.parts.map (·.id))
     (hdg : ∀ ps ∈ G.parts, ps.dying = true → ps.id ∉ t1.parts.map (·.id) ∧ ps.id ∉ t1.zombies)
-    (hfresh : ∀ ms ∈ G.mans, ms.epoch < t1.epoch) (hpos : 0 < t1.epoch) :
+    (hfresh : ∀ ms ∈ G.mans, ms.epoch < t1.epoch) (hpos : 0 < t1.epoch) (htb : TB (publish t1).2) :
     Link (G.withMan ⟨t1.epoch, t1.ids, ino, false⟩) (publish t1).2 := by
   have hfr : (⟨t1.epoch, t1.ids, ino, false⟩ : ManS).epoch ∉ G.mans.map (·.epoch) := by
     intro hmem
@@ -84,74 +79,43 @@ theorem link_after_publish {G : Ghost} {t1 : Tbl} {ino : Nat}
     have := hfresh ms hms
     have he' : ms.epoch = t1.epoch := he
     omega
-  refine ⟨hpb, hib, hnd, hmemFresh, hknown, hz, hdg, ?_, Or.inr ⟨hpos, rfl⟩, Nat.le_refl _, rfl, ?_⟩
-  · intro ms hms
-    rcases (mem_withMan hfr).1 hms with hms | rfl
-    · exact Nat.le_of_lt (hfresh ms hms)
-    · exact Nat.le_refl _
-  · intro ms hms hab id hid
+  -- the only manifest at or above the new floor is the new one
+  have honly : ∀ ms ∈ (G.withMan ⟨t1.epoch, t1.ids, ino, false⟩).mans,
+      (G.withMan ⟨t1.epoch, t1.ids, ino, false⟩).aboveFloor ms.epoch → ms.ids = t1.ids := by
+    intro ms hms hab
     rcases (mem_withMan hfr).1 hms with hms | rfl
     · exfalso
       have := hab t1.epoch rfl
       have := hfresh ms hms
       omega
-    · exact hid
-
-/-! ### equations for `opSteps` -/
-
-def flushT1 (t : Tbl) : Tbl := { t with parts := t.parts.map (fun p => { p with mem := false }), epoch := t.epoch + 1 }
-
-theorem opSteps_flush (t : Tbl) :
-    opSteps t .flush = if (t.parts.filter (·.mem)).isEmpty then ([], t) else
-      ((t.parts.filter (·.mem)).flatMap (fun p => flushPart p.id p.batches) ++ (publish (flushT1 t)).1,
-       (publish (flushT1 t)).2) := by
-  unfold opSteps
-  by_cases h : (t.parts.filter (·.mem)).isEmpty <;> simp [h, flushT1, publish]
-
-def mergeMemT1 (t : Tbl) : Tbl :=
-  { t with parts := t.parts.filter (fun p => !p.mem) ++ [⟨t.curPartID + 1, (t.parts.filter (·.mem)).flatMap (·.batches), false⟩],
-           curPartID := t.curPartID + 1, epoch := t.epoch + 1 }
-
-theorem opSteps_mergeMem (t : Tbl) :
-    opSteps t .mergeMem = if (t.parts.filter (·.mem)).length < 2 then ([], t) else
-      (mergeOut (t.curPartID + 1) ((t.parts.filter (·.mem)).flatMap (·.batches)) ++ (publish (mergeMemT1 t)).1,
-       (publish (mergeMemT1 t)).2) := by
-  unfold opSteps
-  by_cases h : (t.parts.filter (·.mem)).length < 2 <;> simp [h, mergeMemT1, publish]
-
-def mergeT1 (t : Tbl) (sel : List Nat) (hold : Bool) : Tbl :=
-  let chosen := selectParts (t.parts.filter (fun p => !p.mem)) sel
-  let gone := chosen.map (·.id)
-  { t with parts := t.parts.filter (fun p => !gone.contains p.id) ++ [⟨t.curPartID + 1, chosen.flatMap (·.batches), false⟩],
-           curPartID := t.curPartID + 1, epoch := t.epoch + 1,
-           held := if hold then t.held ++ [(t.parts.filter (fun p => !p.mem)).map (·.id)] else t.held,
-           zombies := t.zombies ++ gone }
-
-theorem opSteps_merge (t : Tbl) (sel : List Nat) (hold : Bool) :
-    opSteps t (.merge sel hold) =
-      if (selectParts (t.parts.filter (fun p => !p.mem)) sel).length < 2 then ([], t) else
-      (mergeOut (t.curPartID + 1) ((selectParts (t.parts.filter (fun p => !p.mem)) sel).flatMap (·.batches)) ++
-         (publish (mergeT1 t sel hold)).1 ++ (reap (publish (mergeT1 t sel hold)).2).1,
-       (reap (publish (mergeT1 t sel hold)).2).2) := by
-  unfold opSteps
-  by_cases h : (selectParts (t.parts.filter (fun p => !p.mem)) sel).length < 2 <;> simp [h, mergeT1, publish, reap]
-
-theorem opSteps_release (t : Tbl) : opSteps t .release = reap { t with held := [] } := rfl
+    · rfl
+  refine ⟨hpb, hib, hnd, hmemFresh, hknown, hz, hdg, ?_, Or.inr ⟨hpos, rfl⟩, Nat.le_refl _, rfl, ?_, hfull, ?_, ?_,
+    htb⟩
+  · intro ms hms
+    rcases (mem_withMan hfr).1 hms with hms | rfl
+    · exact Nat.le_of_lt (hfresh ms hms)
+    · exact Nat.le_refl _
+  · intro ms hms hab id hid
+    rw [honly ms hms hab] at hid; exact hid
+  · intro ms hms hab p hp _
+    rw [honly ms hms hab]; exact List.mem_map.2 ⟨p, hp, rfl⟩
+  · intro ms hms hab
+    refine ⟨t1.parts.filter (·.mem), [], by simp [publish_parts], ?_, by simp⟩
+    intro p hp
+    rw [honly ms hms hab]; exact List.mem_map.2 ⟨p, (List.mem_filter.1 hp).1, rfl⟩
 
 /-! ### the operations -/
 
-def batchT (t : Tbl) (b : Nat) : Tbl := (opSteps t (.batch b)).2
-
-theorem batchT_parts (t : Tbl) (b : Nat) : (batchT t b).parts = t.parts ++ [⟨t.curPartID + 1, [b], true⟩] := rfl
-theorem batchT_cur (t : Tbl) (b : Nat) : (batchT t b).curPartID = t.curPartID + 1 := rfl
-theorem batchT_epoch (t : Tbl) (b : Nat) : (batchT t b).epoch = t.epoch + 1 := rfl
-theorem batchT_live (t : Tbl) (b : Nat) : (batchT t b).liveEpoch = t.liveEpoch := rfl
-theorem batchT_del (t : Tbl) (b : Nat) : (batchT t b).deletable = t.deletable := rfl
-theorem batchT_zomb (t : Tbl) (b : Nat) : (batchT t b).zombies = t.zombies := rfl
-
 theorem op_batch {G : Ghost} {s : St} {tb : Tbl} (h : Inv G s) (hL : Link G tb) (b : Nat) :
     OpOK tb (.batch b) s := by
-  refine ⟨along_nil ⟨G, h⟩, G, h, ?_⟩
+  have hacc := acc_of_link h.gwf.partIds hL
+  refine ⟨along_nil ⟨G, h, hacc⟩, ?_, ?_, G, h, ?_⟩
+  · show Along _ s []
+    refine along_nil ⟨G, h, ?_⟩
+    show AccAt tb.acked (fileBatches (batchT tb b)).length G
+    rw [fileBatches_batchT]; exact hacc
+  · show (fileBatches tb).length ≤ (fileBatches (batchT tb b)).length
+    rw [fileBatches_batchT]; exact Nat.le_refl _
   show Link G (batchT tb b)
   have hnew : tb.curPartID + 1 ∉ tb.parts.map (·.id) := by
     intro hm
@@ -161,7 +125,7 @@ theorem op_batch {G : Ghost} {s : St} {tb : Tbl} (h : Inv G s) (hL : Link G tb) 
     intro p hp; rw [batchT_parts] at hp; simpa using hp
   have hids : (batchT tb b).parts.map (·.id) = tb.parts.map (·.id) ++ [tb.curPartID + 1] := by
     rw [batchT_parts]; simp
-  refine ⟨?_, ?_, ?_, ?_, ?_, ?_, ?_, ?_, ?_, ?_, ?_, ?_⟩
+  refine ⟨?_, ?_, ?_, ?_, ?_, ?_, ?_, ?_, ?_, ?_, ?_, ?_, ?_, ?_, ?_, tb_batch hL.tbl b⟩
   · intro ps hps; have := hL.partBound ps hps; rw [batchT_cur]; omega
   · intro p hp
     rw [batchT_cur]
@@ -210,5 +174,23 @@ theorem op_batch {G : Ghost} {s : St} {tb : Tbl} (h : Inv G s) (hL : Link G tb) 
   · intro ms hms hab id hid
     rw [hids, List.mem_append]
     exact Or.inl (hL.aboveIds ms hms hab id hid)
+  · intro p hp hm
+    rcases hmemP p hp with hp' | rfl
+    · exact hL.fileFull p hp' hm
+    · cases hm
+  · intro ms hms hab p hp hm
+    rcases hmemP p hp with hp' | rfl
+    · exact hL.listsFile ms hms hab p hp' hm
+    · cases hm
+  · intro ms hms hab
+    obtain ⟨pre, suf, hps, hpre, hsuf⟩ := hL.listedPrefix ms hms hab
+    refine ⟨pre, suf ++ [⟨tb.curPartID + 1, [b], true⟩], ?_, hpre, ?_⟩
+    · rw [batchT_parts, List.filter_append, hps]; simp
+    · intro p hp
+      rcases List.mem_append.1 hp with hp | hp
+      · exact hsuf p hp
+      · simp at hp; subst hp
+        intro hin
+        exact hnew (hL.aboveIds ms hms hab _ hin)
 
 end Banyan.C04
